@@ -19,6 +19,16 @@ CHECKS = {
             "Reference semantics in vlib/refsem.py written from docs/guide.rst and the Value docstrings. "
             "Inputs outside the documented domain (listed in the evidence assumptions) are not generated.",
             "DESIGN.md §2, §4 C01"),
+    "C02": ("exploration",
+            "Hypothesis-generated Module-DSL programs + event sequences, differential against a reference statement interpreter",
+            "Random one-module programs (every assignable target form, If/Elif/Else, Switch with all pattern kinds and "
+            "unreachable cases, FSM/next/ongoing, comb and sync targets, resets) are simulated event by event and every "
+            "target is compared after every event with an independent per-bit 'last active assignment wins' interpreter. "
+            "Sampling is the only option for an unbounded program space; generator class counters (all constructs, "
+            "two different branches actually taken) guard against vacuity.",
+            "Reference interpreter in vlib/refsem.py (Interp, lhs_map). Acyclic single-module designs; one sync domain with a "
+            "synchronous reset (domain/reset variety is C03's job).",
+            "DESIGN.md §2, §4 C02"),
     "C10": ("exploration",
             "exhaustive enumeration of small boxes + Hypothesis property tests against a brute-force oracle",
             "Every range / (value, shape) / helper argument in a stated finite box is enumerated and compared "
